@@ -216,6 +216,14 @@ def main(pid, tier, seed):
             verdict.violation(dict(m, clause='+'.join(failing), failing=failing, offending=bad),
                               'clauses %s; args %s; offending kept structures %s' % (failing, ' '.join(m['args']), bad))
 
+    def corrupt(t):
+        if len(t['after']) >= 1:
+            t['after'][0]['p'] = t['after'][0]['p'] + [ord('1')]      # a survivor whose probability text was altered
+            return t
+        return None
+    accepted = [t for t in real if verdicts[t['tid']][0] == 'ACCEPT']
+    selftest = core.binding_selftest('TrEdit.tla', accepted, corrupt)
+
     def x_only(w):
         f = set(w.get('failing', []))
         return bool(f) and f <= {'C20_kept_pass_the_filter', 'C20_guess_lengths_within_bounds'} \
@@ -233,7 +241,7 @@ def main(pid, tier, seed):
            'rule': 'one trace = one real edit_rules.py subprocess on a private copy of a generated ruleset (random filters, '
                    'with/without --copy) followed by the real guesser on the result; non-trivial = at least one structure removed',
            'rulesets': n_rules, 'with_context_labels': sum(1 for j in jobs if j['with_x']),
-           'trace_validation': st, 'exhaustive': False, 'known_findings_reproduced': n_known,
+           'trace_validation': st, 'exhaustive': False, 'known_findings_reproduced': n_known, 'binding_selftest': selftest,
            'violation_histogram': verdict.histogram()}
     core.write_evidence(pid, tier, seed, 'model_checking', cov, time.time() - t0, violations=n_viol,
                         assumptions=['TLC', 'regex matching evaluated with Python re and passed as booleans',
